@@ -213,8 +213,7 @@ func (rc *recorder) deliver(e *bftsim.Env) {
 			act = fmt.Sprintf("ALeader %s (mkLM %s %s %s %s (mkQC (mkView 0 0 0) 0 0 0 []%%N false) false None 0)", sim.CoqN(uint64(e.To)), sim.CoqN(from), sim.CoqBool(sigok),
 				sim.CoqN(m.Header.Round), sim.CoqN(uint64(m.Header.Phase)))
 		} else {
-			act = fmt.Sprintf("ALeader %s (mkLM %s %s %s %s %s %s %s %s)", sim.CoqN(uint64(e.To)), sim.CoqN(from), sim.CoqBool(sigok), sim.CoqN(m.Header.Round),
-				sim.CoqN(uint64(m.Header.Phase)), rc.qcLit(m.Qc), sim.CoqBool(m.Qc.Block != nil && m.Qc.Results != nil), rc.optQC(m.HighQc), sim.CoqN(m.RcBuildHeight))
+			act = fmt.Sprintf("ALeader %s %s", sim.CoqN(uint64(e.To)), rc.lmsgLit(m, from, sigok))
 		}
 	}
 	rc.trace = append(rc.trace, fmt.Sprintf("(%s, %s)", act, rc.obs(e.To, nil)))
@@ -406,4 +405,9 @@ func majorityOfPrevPhase(b *bft.BFT) (*bft.Message, *lib.AggregateSignature, lib
 	b.Phase = bft.Propose
 	defer func() { b.Phase = ph }()
 	return b.GetMajorityVote()
+}
+
+func (rc *recorder) lmsgLit(m *bft.Message, from uint64, sigok bool) string {
+	return fmt.Sprintf("(mkLM %s %s %s %s %s %s %s %s)", sim.CoqN(from), sim.CoqBool(sigok), sim.CoqN(m.Header.Round),
+		sim.CoqN(uint64(m.Header.Phase)), rc.qcLit(m.Qc), sim.CoqBool(m.Qc.Block != nil && m.Qc.Results != nil), rc.optQC(m.HighQc), sim.CoqN(m.RcBuildHeight))
 }
